@@ -386,7 +386,7 @@ func genCase(t *rapid.T) Case {
 	return c
 }
 
-var prop = &ev.Prop[Case]{Sub: "expiry", Quick: 60000, Thorough: 4000000, Gen: genCase, Check: check}
+var prop = &ev.Prop[Case]{Sub: "expiry", Quick: 400000, Thorough: 4000000, Gen: genCase, Check: check}
 
 func TestRegress(t *testing.T) { prop.Regress(t) }
 func TestReplay(t *testing.T)  { prop.Replay(t) }
